@@ -103,6 +103,26 @@ func main() {
 			nds = append(nds, n...)
 		}
 	}
+	// order-dependent post-processing, found syntactically (no type information needed), also in the
+	// controller package that hands the endpoint sets to the generator
+	for _, rel := range append(append([]string{}, pkgs...), "internal/k8s") {
+		dir := filepath.Join(*repo, rel)
+		bp, err := build.Default.ImportDir(dir, 0)
+		if err != nil {
+			fmt.Fprintf(os.Stderr, "c09t: %s: %v\n", rel, err)
+			os.Exit(2)
+		}
+		names := append([]string{}, bp.GoFiles...)
+		sort.Strings(names)
+		for _, n := range names {
+			f, err := parser.ParseFile(fset, filepath.Join(dir, n), nil, 0)
+			if err != nil {
+				fmt.Fprintf(os.Stderr, "c09t: parse %s: %v\n", n, err)
+				os.Exit(2)
+			}
+			nds = append(nds, scanCompact(fset, rel, n, f)...)
+		}
+	}
 	var b bytes.Buffer
 	emit(&b, sites, nds)
 	if *out == "" {
@@ -329,6 +349,63 @@ func scanFile(fset *token.FileSet, info *types.Info, pkg, fname string, f *ast.F
 		}
 	}
 	return sites, nds
+}
+
+// scanCompact: slices.Compact / CompactFunc only removes ADJACENT duplicates; unless the same expression
+// was sorted earlier in the function (sort.* / slices.Sort*), the result depends on the order of arrival.
+func scanCompact(fset *token.FileSet, pkg, fname string, f *ast.File) []nduse {
+	var out []nduse
+	pkgCall := func(n ast.Node) (string, string, *ast.CallExpr) {
+		call, ok := n.(*ast.CallExpr)
+		if !ok || len(call.Args) == 0 {
+			return "", "", nil
+		}
+		sel, ok := call.Fun.(*ast.SelectorExpr)
+		if !ok {
+			return "", "", nil
+		}
+		id, ok := sel.X.(*ast.Ident)
+		if !ok {
+			return "", "", nil
+		}
+		return id.Name, sel.Sel.Name, call
+	}
+	for _, d := range f.Decls {
+		fd, ok := d.(*ast.FuncDecl)
+		if !ok || fd.Body == nil {
+			continue
+		}
+		sortedAt := map[string]token.Pos{}
+		ast.Inspect(fd.Body, func(n ast.Node) bool {
+			p, fn, call := pkgCall(n)
+			if call == nil {
+				return true
+			}
+			if (p == "sort" && !strings.HasPrefix(fn, "Search") && !strings.HasSuffix(fn, "Sorted")) || (p == "slices" && strings.HasPrefix(fn, "Sort")) {
+				a0 := call.Args[0]
+				if cv, ok := a0.(*ast.CallExpr); ok && len(cv.Args) == 1 {
+					a0 = cv.Args[0]
+				}
+				k := types.ExprString(a0)
+				if _, ok := sortedAt[k]; !ok {
+					sortedAt[k] = call.Pos()
+				}
+			}
+			return true
+		})
+		ast.Inspect(fd.Body, func(n ast.Node) bool {
+			p, fn, call := pkgCall(n)
+			if call == nil || p != "slices" || (fn != "Compact" && fn != "CompactFunc") {
+				return true
+			}
+			k := types.ExprString(call.Args[0])
+			if pos, ok := sortedAt[k]; !ok || pos > call.Pos() {
+				out = append(out, nduse{Kind: "compact-unsorted:slices." + fn + "(" + k + ")", Pkg: pkg, File: fname, Func: funcName(fd), Line: fset.Position(call.Pos()).Line})
+			}
+			return true
+		})
+	}
+	return out
 }
 
 func typeStr(t types.Type) string {
